@@ -627,6 +627,13 @@ impl<Tx: Debug + ProstMessage + Default, Rx: Debug + ProstMessage + Default> Cha
         }
 
         if self.front_buf.available_space() == 0 {
+            // The tail is full, but frames already consumed may have left free
+            // bytes at the head (`consume` only shifts past half the capacity).
+            // Reclaim them before growing or declaring the buffer full,
+            // otherwise a frame that fits in `max_buffer_size` is refused forever.
+            self.front_buf.shift();
+        }
+        if self.front_buf.available_space() == 0 {
             if self.front_buf.capacity() >= self.max_buffer_size {
                 return Err(ChannelError::BufferFull {
                     capacity: self.front_buf.capacity(),
